@@ -18,8 +18,14 @@ theorem hAt_heightsOf (C : C01.Code) (pc : Nat) : hAt (heightsOf C) pc = Ty.env 
     | none => rfl
     | some v => have := Ty.env_some_range C 0 _ _ he; omega
 
+theorem sum_const_two {α} (l : List α) : (l.map fun _ => 2).sum = 2 * l.length := by
+  induction l with
+  | nil => rfl
+  | cons a l ih => simp only [List.map_cons, List.sum_cons, List.length_cons, ih]; omega
+
 theorem operands_length (tb : C01.Tables) (i : C01.Instr) : (i.operands tb).length + 1 = i.size := by
   cases i <;> simp [Instr.operands, Instr.size]
+  rw [sum_const_two]; omega
 
 theorem encode_cons (tb : C01.Tables) (i : C01.Instr) (c : C01.Code) :
     encode tb (i :: c) = (opNum tb.opcodes i.opName :: i.operands tb) ++ encode tb c := by
@@ -79,8 +85,10 @@ theorem opName_lookup (i : C01.Instr) :
   obtain ⟨h0, h1⟩ := opName_lookup' i
   exact ⟨(opNum Opcodes.opcodes i.opName).toNat, (Int.toNat_of_nonneg h0).symm, h1⟩
 
-theorem operandCount_opName (tb : C01.Tables) (i : C01.Instr) : operandCount i.opName = some (i.operands tb).length := by
+theorem operandCount_opName (tb : C01.Tables) (i : C01.Instr) (hc : ∀ f n a, i ≠ .callUser f n a) :
+    operandCount i.opName = some (i.operands tb).length := by
   cases i with
+  | callUser f n a => exact absurd rfl (hc f n a)
   | getVar sc k => cases sc <;> simp [Instr.operands, Instr.opName, VScope.suffix] <;> decide
   | assignVar sc k => cases sc <;> simp [Instr.operands, Instr.opName, VScope.suffix] <;> decide
   | incrVar sc d k => cases sc <;> simp [Instr.operands, Instr.opName, VScope.suffix] <;> decide
@@ -111,7 +119,7 @@ theorem decode_encoded (t : Tables) (tb : C01.Tables) (cx : Ctx) (P Q : C01.Code
     (hJ : JumpIn i (csize P) (csize (P ++ i :: Q))) :
     decode t cx (encode tb (P ++ i :: Q)) (csize P) = some (toI i (csize P)) := by
   obtain ⟨k, hk1, hk2⟩ := opName_lookup i
-  have hcount := operandCount_opName tb i
+  have hcount := operandCount_opName tb i (by intro f n a h; subst h; exact hF)
   have hlen := encode_length tb P
   have hcode : encode tb (P ++ i :: Q) = encode tb P ++ ((k : Int) :: i.operands tb) ++ encode tb Q := by
     rw [encode_append, encode_cons, hO, hk1]; simp
